@@ -114,10 +114,15 @@ claim("C12", "exploration", T2,
 claim("C13", "exploration", T2,
       "Bounded: generated corpus (<= 2 TREES blocks x <= 3 statements x TRANSLATE/comments/weights/rooting tokens) in Newick/NEXUS/NeXML: every reading route against TreeList.get.",
       "relates whole parsers (DESIGN.md section 6); two recorded known findings", "DESIGN.md section 5 C13")
-claim("C14", "exploration", T2,
-      "Bounded: all shapes <= 5 (thorough 6) x 7 length patterns: path sums, edge counts, turning nodes for every pair; mrca for every subset; MPD/MNTD; NJ on additive and UPGMA on "
-      "ultrametric matrices recover the tree; CSV round trip.",
-      "bounded stand-in only for this property in this build", "DESIGN.md section 5 C14")
+claim("C14", "proof", T1 + " (heap theory B, bit masks as sets, Python iterators as (list snapshot, position), the **kwargs dictionary with literal keys); " + T2,
+      "Proved (T1, MRCA clause): for tree.mrca(leafset_bitmask=q, is_bipartitions_updated=True) on an encoded tree the result is None exactly when q is not contained in the "
+      "seed node's mask; otherwise the returned node's mask contains q and no child of it does (the deepest node over the taxa), on each of the three ways the search loop "
+      "returns (exact match after stepping down unifurcations, partial overlap, iterator exhausted). Bounded (T2, deciding for the rest): path sums, edge counts and turning nodes for "
+      "every pair, mrca through taxa / labels and the distance matrix, MPD / MNTD, NJ on additive and UPGMA on ultrametric matrices, CSV round trip.",
+      "ASSUMED (requires): the encoding facts -- an internal mask is the union of its children's (C01), sibling masks disjoint, no empty mask (every leaf carries a taxon), tree "
+      "well-formedness (C03); 'a child of a multifurcation never carries its parent's whole mask' is derived from them by a z3 lemma obligation with one instantiation hint; "
+      "the other call shapes (taxa=, taxon_labels=, start_node=) are bounded only",
+      "DESIGN.md section 5 C14, section 9")
 claim("C15", "exploration", T2 + " (exhaustive small scope); filter-composition lambdas proved equivalent to their definition by z3 over atoms read off the AST",
       "Bounded, exhaustive (deciding): every ordered tree with <= 9 (thorough 11) nodes x every start node x 7 filters x every iterator of Tree and Node against recursive "
       "reference definitions; apply() bracket words. T1: internal-node / internal-edge / leaf filter lambdas == (non-leaf and (seed allowed or has parent) and user filter).",
